@@ -248,6 +248,9 @@ int main(int argc, char** argv) {
     Rng r(seed * 1000003ULL + scn);
     std::string profile = profileArg;
     Profile pf = profileOf(profile);
+    // every family also meets rulesets scoped by a ruleset-level cgroup pattern (per-cgroup instances that are created,
+    // prerun, suspended, paused and discarded as cgroups come and go): a third of the scenarios of the other families
+    if (!pf.cg && r.chance(34)) pf.cg = true;
     SimFs fs;
     ip().base = fs.base();
     resetScenario();
